@@ -140,6 +140,74 @@ inline bool wait_done(std::vector<Worker*>& ws, uint64_t timeout_us, const char*
     return true;
 }
 
+
+// ---------------------------------------------------------------------------------------------------- hook sink (Tier B)
+// Events emitted by the guarded hooks inside the library are appended to the same trace, named "h...".  Thread and object
+// pointers are mapped to the small ids registered by the harness (0 = null, -1 = not registered).  Times are logged
+// relative to t0().  An event raised inside a VT_ATOMIC bracket is appended while the bracket holds the sink lock.
+extern "C" int photon_verif_sleepq_dump(const void* sq, const void** th, uint64_t* ts, int* idx, int max);
+inline uint64_t& t0() { static uint64_t t = 0; return t; }
+inline int& in_bracket() { static thread_local int b = 0; return b; }
+inline std::atomic<bool>& hooks_logged() { static std::atomic<bool> b{false}; return b; }
+inline std::atomic<bool>& heap_logged() { static std::atomic<bool> b{false}; return b; }
+typedef std::function<void(uint32_t, const void*, uint64_t, uint64_t, uint64_t)> hook_cb_t;
+inline hook_cb_t& hook_callback() { static hook_cb_t cb; return cb; }     // scenario-specific gate / fault injection
+inline int64_t rel(uint64_t ts) { return ts == (uint64_t)-1 ? -1 : (ts < t0() ? 0 : (int64_t)(ts - t0())); }
+
+inline void hook_lock(int on) {
+    auto& s = vt::sink();
+    if (on) { s.lock(); in_bracket() = 1; }
+    else { in_bracket() = 0; s.unlock(); }
+}
+inline void hook_emit(const std::string& j) {
+    auto& s = vt::sink();
+    if (in_bracket()) { s.buf += j; s.n++; return; }
+    s.lock(); s.buf += j; s.n++; if (s.buf.size() > (1 << 20)) s.flush_locked(); s.unlock();
+}
+inline void hook_fn(uint32_t id, const void* obj, uint64_t a, uint64_t b, uint64_t c) {
+    if (!in_bracket()) {
+        auto& cb = hook_callback();
+        if (cb) cb(id, obj, a, b, c);
+        Perturb::maybe();
+    }
+    if (!hooks_logged().load(std::memory_order_relaxed)) return;
+    char buf[256]; buf[0] = 0;
+    auto T = [](const void* p) { return reg().get(p); };
+    switch (id) {
+    case VT_SLEEP: snprintf(buf, sizeof buf, "{\"e\":\"hSleep\",\"t\":%d,\"q\":%d,\"dl\":%lld,\"now\":%lld}\n", T(obj), T((void*)a), (long long)rel(b), (long long)rel(c)); break;
+    case VT_WAKE: snprintf(buf, sizeof buf, "{\"e\":\"hWake\",\"t\":%d,\"r\":%d}\n", T(obj), (int)(int64_t)a); break;
+    case VT_INTR: snprintf(buf, sizeof buf, "{\"e\":\"hIntr\",\"t\":%d,\"r\":%d,\"sb\":%d}\n", T(obj), (int)(int64_t)a, (int)b); break;
+    case VT_INTR_READY: snprintf(buf, sizeof buf, "{\"e\":\"hIntrReady\",\"t\":%d,\"r\":%d,\"st\":%d}\n", T(obj), (int)(int64_t)a, (int)b); break;
+    case VT_EXPIRE: snprintf(buf, sizeof buf, "{\"e\":\"hExpire\",\"t\":%d,\"now\":%lld,\"dl\":%lld}\n", T(obj), (long long)rel(a), (long long)rel(b)); break;
+    case VT_DRAIN: snprintf(buf, sizeof buf, "{\"e\":\"hDrain\",\"t\":%d}\n", T(obj)); break;
+    case VT_MTX_TRY: snprintf(buf, sizeof buf, "{\"e\":\"hMtxTry\",\"m\":%d,\"t\":%d,\"ok\":%d}\n", T(obj), T((void*)a), (int)b); break;
+    case VT_MTX_UNLOCK: snprintf(buf, sizeof buf, "{\"e\":\"hMtxUnlock\",\"m\":%d,\"h\":%d,\"by\":%d,\"fl\":%d}\n", T(obj), T((void*)a), T((void*)b), (int)c); break;
+    case VT_SEM_SUB: snprintf(buf, sizeof buf, "{\"e\":\"hSemSub\",\"s\":%d,\"n\":%d,\"ok\":%d,\"cnt\":%d}\n", T(obj), (int)a, (int)b, (int)c); break;
+    case VT_SEM_ADD: snprintf(buf, sizeof buf, "{\"e\":\"hSemAdd\",\"s\":%d,\"n\":%d,\"cnt\":%d,\"lk\":%d}\n", T(obj), (int)a, (int)b, (int)c); break;
+    case VT_SEM_RESUME: snprintf(buf, sizeof buf, "{\"e\":\"hSemResume\",\"s\":%d,\"t\":%d,\"left\":%d}\n", T(obj), T((void*)a), (int)b); break;
+    case VT_RW_STATE: snprintf(buf, sizeof buf, "{\"e\":\"hRwState\",\"o\":%d,\"st\":%d,\"mode\":%d,\"t\":%d}\n", T(obj), (int)(int64_t)a, (int)b, T((void*)c)); break;
+    case VT_RW_WAKE_READERS: snprintf(buf, sizeof buf, "{\"e\":\"hRwWakeReaders\",\"o\":%d}\n", T(obj)); break;
+    case VT_HEAP_OP: {
+        if (!heap_logged().load(std::memory_order_relaxed)) return;
+        const void* th[64]; uint64_t ts[64]; int idx[64];
+        int n = photon_verif_sleepq_dump(obj, th, ts, idx, 64);
+        if (n > 64) return;       // too large to log; not an error
+        int qid = T(obj);
+        if (qid < 0) { static std::atomic<int> next{300}; qid = next++; reg().set(obj, qid); }
+        std::string j = "{\"e\":\"hHeap\",\"q\":" + std::to_string(qid) + ",\"op\":" + std::to_string((int)a) + ",\"t\":" + std::to_string(T((void*)b)) + ",\"n\":" + std::to_string((int)c) + ",\"a\":[";
+        for (int i = 0; i < n; i++) { if (i) j += ','; j += '['; j += std::to_string(T(th[i])); j += ','; j += std::to_string((long long)rel(ts[i])); j += ','; j += std::to_string(idx[i]); j += ']'; }
+        j += "]}\n";
+        hook_emit(j); return; }
+    default: return;
+    }
+    if (buf[0]) hook_emit(buf);
+}
+inline void install_hooks(bool log_events, bool log_heap = false) {
+    hooks_logged() = log_events; heap_logged() = log_heap;
+    photon_verif_lock = &hook_lock;
+    photon_verif_hook = &hook_fn;
+}
+
 // Watchdog (plain OS thread): if no event has been recorded for `secs` seconds the process is stuck in a way the photon-level
 // wait loops cannot see (e.g. an OS thread spinning forever on a spinlock).  It records a Hang event and ends the process
 // with exit code 4; the trace up to that point shows which calls had been invoked and had not returned.
